@@ -205,8 +205,9 @@ def quick_cases(rng):
     """the SSH buffer cases of the quick tier: k = 0..3 chunks, both places where the worker can be caught"""
     cs = [dict(transport='ssh', path='ssh_buffered', mode='idle', k=0, pending=1)]
     for k in (0, 1, 2, 3):
+        # delay: how long the worker stays blocked after the transport was closed (close() must wait for it: the join)
         cs.append(dict(transport='ssh', path='ssh_buffered', mode='callback', k=k, pending=k % 2,
-                       msg=rng.choice([500, 1000, 1300, 2048])))
+                       msg=rng.choice([500, 1000, 1300, 2048]), delay=0.12 if k % 2 else 0.01))
     for k in (1, 2, 3):
         cs.append(dict(transport='ssh', path='ssh_buffered', mode='gate', k=k, pending=(k + 1) % 2,
                        msg=rng.choice([500, 1000, 1300, 2048])))
